@@ -149,6 +149,7 @@ class GenChart:
         after: optional callable (chart, i, kind, e, status) run after it has decided (after chart.trans(...))."""
         fns = {}
         ch = self
+        left = set()          # states whose handler has run its exit clause and not been entered since (see super_none_after_exit)
         via_callback = bool(getattr(self, "parent_via_callback", False)) and bool(getattr(self, "_host_has_parent_callback", False))
 
         def sig_kind(e):
@@ -179,12 +180,16 @@ class GenChart:
                     effects(chart, i, kind, e)
                 status = return_status.UNHANDLED
                 par = fns[ch.parent[i]] if ch.parent[i] != 0 else chart.top
+                if e.signal == signals.ENTRY_SIGNAL:
+                    left.discard(i)
                 if e.signal == signals.ENTRY_SIGNAL and ch.entryh[i]:
                     status = return_status.HANDLED
                 elif e.signal == signals.EXIT_SIGNAL and i in getattr(ch, "exit_none", ()):
                     return None             # the exit clause forgot its `return return_status.HANDLED`
                 elif e.signal == signals.EXIT_SIGNAL and ch.exith[i]:
                     status = return_status.HANDLED
+                    if i in getattr(ch, "super_none_after_exit", ()):
+                        left.add(i)             # from now on (until it is entered again) this handler forgets its `return SUPER`
                 elif e.signal == signals.INIT_SIGNAL and (ch.init.get(i) is not None or ch.inith[i]):
                     if ch.init.get(i) is not None:
                         status = chart.trans(fns[ch.init[i]])
@@ -215,6 +220,11 @@ class GenChart:
                 else:
                     if i in getattr(ch, "fallthrough", ()):
                         return None         # an if/elif ladder without a final else: no status for anything it has no clause for
+                    if i in getattr(ch, "super_none", ()) or i in left:
+                        chart.temp.fun = par    # the final else names the parent ... and forgets `return return_status.SUPER`
+                        if hasattr(ch, "none_log"):
+                            ch.none_log.append((i, kind))
+                        return None
                     if via_callback:
                         return ASK_PARENT   # the handler itself (a function with the state's name) asks the chart for its parent
                     status, chart.temp.fun = return_status.SUPER, par
@@ -340,6 +350,12 @@ def probed_class(base):
         def top(self, *args):
             self._vp_count()
             return super().top(*args)
+    if hasattr(base, "signal_callback"):
+        # template state functions consult the chart on every call: count those too (a cyclic nesting never reaches top)
+        def signal_callback(self, e, name):
+            self._vp_count()
+            return base.signal_callback(self, e, name)
+        Probed.signal_callback = signal_callback
     Probed.__name__ = "Probed" + base.__name__
     return Probed
 
@@ -379,6 +395,8 @@ def run_real(chart, ops, host="plain", spied=False, builder=None):
     hsm._vp_names = names
     for o, a in ops:
         del log[:]
+        if hasattr(chart, "none_log"):
+            del chart.none_log[:]
         hsm._vp_calls = 0
         try:
             res = None
@@ -398,6 +416,8 @@ def run_real(chart, ops, host="plain", spied=False, builder=None):
                 n_before = len(log)
                 rec["current_state"] = hsm.current_state()
                 del log[n_before:]
+            if hasattr(chart, "none_log"):
+                rec["none_answers"] = list(chart.none_log)
             names.append(rec)
             vis = [(i, k) for i, k in log]
             head = "ok" if res is None else "ok res=%d" % res
